@@ -432,10 +432,10 @@ pub fn gen_script(rng: &mut Rng, prim: &Prim, len: usize) -> Vec<Op> {
                 },
             },
             Prim::Semaphore(_) => match r {
-                0 | 1 | 2 => Op::Start(s, AOp::Acquire(rng.range(1, 3) as u32)),
+                0 | 1 | 2 => Op::Start(s, AOp::Acquire(if rng.chance(1, 8) { 0 } else { rng.range(1, 3) } as u32)),
                 3 | 4 | 5 => Op::Poll(s),
                 6 => Op::Cancel(s),
-                7 => Op::Now(NOp::TryAcquire(rng.range(1, 2) as u32)),
+                7 => Op::Now(NOp::TryAcquire(if rng.chance(1, 8) { 0 } else { rng.range(1, 2) } as u32)),
                 8 => Op::Now(NOp::ReleaseOldest),
                 9 => Op::Now(NOp::AddPermits(rng.range(1, 2))),
                 10 => Op::Now(NOp::Info),
